@@ -910,8 +910,8 @@ def run(ctx):
         tr["n_writes"], len(tr["files"]), tr["constant_aug_assign"], "" if not tr["failed"] else "  FAILED: " + "; ".join(tr["failed"])[:500]))
 
     # ---- interleavings -----------------------------------------------------------------------------------------------
-    nseq = ctx.n(5, 60)
-    nops = ctx.n(10, 30)
+    nseq = ctx.n(16, 120)
+    nops = ctx.n(12, 30)
     INTERN.names.clear()
     INTERN.active = True
     plans = list(fixed_plans(cuqi))
